@@ -25,7 +25,7 @@ use std::thread;
 #[cfg(not(roughenough_verif))]
 use std::time::{Duration, Instant};
 #[cfg(roughenough_verif)]
-use verif_std::{thread, time::{Duration, Instant}};
+use verif_std::{thread, time::*, *};
 
 use crate::config::ServerConfig;
 use crate::key::LongTermKey;
